@@ -33,12 +33,9 @@ def main():
     a = ap.parse_args()
     mod = load(a.prop)
     if a.mode == 'bounded':
-        ctx = common.Ctx(a.prop, a.tier, a.seed, mod.CASES)
+        ctx = common.Ctx(a.prop, a.tier, a.seed, mod.CASES, known=getattr(mod, 'KNOWN_CLASSES', {}))
         mod.enumerate_cases(ctx)
         res = ctx.result()
-        kc = getattr(mod, 'KNOWN_CLASSES', {})
-        for v in res['violations']:
-            v['classes'] = [n for n, pred in kc.items() if _safe(pred, v)]
         res['contracts'] = getattr(mod, 'CONTRACTED', [])
         with open(a.out, 'w') as f:
             json.dump(res, f, default=str)
